@@ -285,7 +285,7 @@ class ClosingIterable:
 # ------------------------------------------------------------------ generators
 TEXTS = ["", "hello", "héllo wörld", "中文", "a\nb", "{}", "x" * 300, "z" * 65536, "z" * 131072, "z" * 196608, " ", "ÿ"]
 HEADER_SETS = [None, {}, {"X-Custom": "1"}, {"x-lower": "v", "X-UPPER": "V"}, {"Content-Type": "text/x-custom"}, {"X-Latin": "caf\xe9"},
-               {"Cache-Control": "no-store", "X-A": "a, b"}, {"content-length": "5"}]
+               {"Cache-Control": "no-store", "X-A": "a, b"}, {"content-length": "5"}, {"X-Pad": " padded value ", "X-Empty": ""}]
 COOKIES = [[], [{"name": "sid", "value": "abc"}], [{"name": "a", "value": "1"}, {"name": "b", "value": "two words", "kw": {"max_age": 60, "httponly": True}}],
            [{"name": "a", "value": "1"}, {"name": "a", "value": "2", "kw": {"path": "/x", "samesite": "strict"}}, {"name": "c", "value": "é;=", "kw": {"secure": True, "domain": "example.com"}}],
            [{"name": "token", "value": "abc\n"}], [{"name": "t\n", "value": "\r\nSet-Cookie: x=1"}, {"name": "q", "value": "\"x; secure; y\""}], [{"name": "z", "value": "tab\there\x00"}], [{"name": "sp", "value": "two  spaces   three"}, {"name": "lead", "value": "  x  "}]]
